@@ -264,21 +264,25 @@ Readable(s, e) == s = "plain" \/ (e.k = hk[s] /\ hk[s] \in Keys)
 Lead(s, tail) == CHOOSE m \in 0..Len(tail) : /\ \A j \in 1..m : Readable(s, tail[j])
                                              /\ m = Len(tail) \/ ~Readable(s, tail[m + 1])
 
-(* a subscriber from offset `from` up to the newest message: every entry is *)
-(* Read before delivery; the first entry that cannot be read ends the       *)
-(* subscription with an error                                               *)
-DoSubscribe(s, from) ==
+(* a subscriber from offset `from`: forward up to the newest message, or in  *)
+(* reverse down to the oldest (the read path of the cursors stream): every  *)
+(* entry is Read before delivery; the first entry that cannot be read ends  *)
+(* the subscription with an error                                           *)
+Rev(q) == [j \in 1..Len(q) |-> q[Len(q) + 1 - j]]
+Range(s, from, rev) == IF rev THEN Rev(SubSeq(log[s], 1, from + 1)) ELSE SubSeq(log[s], from + 1, Len(log[s]))
+
+DoSubscribe(s, from, rev) ==
   /\ up /\ ~paused[s] /\ from \in 0..(Len(log[s]) - 1)
-  /\ LET tail == SubSeq(log[s], from + 1, Len(log[s]))
+  /\ LET tail == Range(s, from, rev)
          m == Lead(s, tail) IN
      obs' = [a |-> "Subscribe", got |-> [j \in 1..m |-> tail[j].v], end |-> IF m < Len(tail) THEN "err" ELSE "eos"]
   /\ UNCHANGED <<up, env, hk, paused, log>>
 
 \* exactly the published values, in order, up to the first entry that is tampered / under another
 \* master key, where the subscription ends with an error and delivers nothing further
-P_Subscribe(s, from) ==
+P_Subscribe(s, from, rev) ==
   /\ up'
-  /\ LET tail == SubSeq(log[s], from + 1, Len(log[s]))
+  /\ LET tail == Range(s, from, rev)
          m == Lead(s, tail) IN
      /\ obs'.got = [j \in 1..m |-> tail[j].v]
      /\ obs'.end = (IF m < Len(tail) THEN "err" ELSE "eos")
